@@ -243,19 +243,58 @@ def analyse(worker_src):
     return {'sites': pub, 'entries': entries, 'helpers': sorted(helpers), 'reads': reads}
 
 
+def _lenient(tree):
+    """Without judging anything: the job classes whose run() is `async with <something that reaches cpu_sem>:` and the
+    methods (other than __init__ / run) that mention cpu_sem.  Used to DRIVE the real code even when `analyse` does not
+    recognise the pattern (the oracle must still be able to search)."""
+    classes = [n for n in tree.body if isinstance(n, ast.ClassDef)]
+    helpers = []
+    for c in classes:
+        for m in c.body:
+            if isinstance(m, (ast.FunctionDef, ast.AsyncFunctionDef)) and m.name not in ('__init__', 'run') and SEM_ATTR in ast.unparse(m):
+                helpers.append((c.name, m.name))
+    hnames = {f for _, f in helpers}
+    entries = []
+    for c in classes:
+        for m in c.body:
+            if isinstance(m, ast.AsyncFunctionDef) and m.name == 'run':
+                body = _strip_doc(m.body)
+                if body and isinstance(body[0], ast.AsyncWith):
+                    expr = ' ; '.join(ast.unparse(i.context_expr) for i in body[0].items)
+                    reaches = SEM_ATTR in expr or any(isinstance(n, ast.Attribute) and n.attr in hnames
+                                                      for i in body[0].items for n in ast.walk(i.context_expr))
+                    if reaches:
+                        entries.append({'cls': c.name, 'pattern': None, 'via': None, 'expr': expr})
+    return entries, helpers
+
+
 def harness_source(worker_src):
     """Python source with the REAL reservation code: for every job class that reserves cores, its run() with the body of the
-    outermost `async with` replaced by `await self._h_body()`; every helper the reservations go through, verbatim."""
-    info = analyse(worker_src)
+    outermost `async with` replaced by `await self._h_body()` (statements after it are dropped); every helper that touches
+    cpu_sem, verbatim.  Returns (source, job class names, analysis or None when the pattern is not recognised)."""
     tree = ast.parse(worker_src)
+    try:
+        info = analyse(worker_src)
+    except Unrecognised as e:
+        info = {'unrecognised': str(e)}
+    entries, helpers = _lenient(tree)
+    if 'entries' in info:
+        by_cls = {e['cls']: e for e in info['entries']}
+        entries = [by_cls.get(e['cls'], e) for e in entries]
+        for e in info['entries']:
+            if e['cls'] not in {x['cls'] for x in entries}:
+                entries.append(e)
+    if not entries:
+        raise Unrecognised('no run() method reaches cpu_sem')
+    info['entries'] = entries
     classes = {n.name: n for n in tree.body if isinstance(n, ast.ClassDef)}
     out = ['class HWorkerHelpers:', '    pass']
-    for (hc, hf) in info['helpers']:
+    for (hc, hf) in helpers:
         fn = next(m for m in classes[hc].body if isinstance(m, (ast.FunctionDef, ast.AsyncFunctionDef)) and m.name == hf)
         out += ['    ' + ln for ln in ast.unparse(fn).splitlines()]
         out.append('')
     names = []
-    for e in info['entries']:
+    for e in entries:
         run = next(m for m in classes[e['cls']].body if isinstance(m, ast.AsyncFunctionDef) and m.name == 'run')
         run = ast.parse(ast.unparse(run)).body[0]           # private copy
         aw = _strip_doc(run.body)[0]
